@@ -19,6 +19,8 @@ typedef struct BindField {
     const char *set_name;
     int legacy_id;         /* value of the legacy alias macro or -1 */
     const char *legacy_name;
+    /* read, then write v (or initialise the header if with_init), then read again - direct calls in one function */
+    uint64_t (*fused)(void *pdu, uint64_t v, uint64_t *before, int with_init);
 } BindField;
 
 typedef struct BindFunc {  /* every prototype found in the header */
@@ -46,6 +48,7 @@ typedef struct BindFormat {
     const BindFunc *funcs;
     unsigned nfuncs;
     int (*legacy_init2)(void *pdu, unsigned format_subtype);  /* avtp_cvf_pdu_init */
+    int (*legacy_get_raw)(void *pdu, int field, void *val);   /* val passed through unchanged (may be NULL) */
 } BindFormat;
 
 extern const BindFormat *const bind_formats[];
